@@ -305,6 +305,19 @@ func (w *c12fn) paramIndex(v ssa.Value) int {
 	if p, ok := v.(*ssa.Parameter); ok {
 		return idx(p)
 	}
+	// a by-value capture (the receiver of a bound method value `r.m`, whose wrapper
+	// holds m's body in the loader's variant 2): the free variable IS the value
+	// bound at the creation site, and an SSA value never changes.
+	if fv, ok := v.(*ssa.FreeVar); ok {
+		if _, isPtrCell := fv.Type().(*types.Pointer); isPtrCell {
+			if b := w.cellRoot(fv); b != ssa.Value(fv) {
+				if _, isCell := b.(*ssa.Alloc); !isCell {
+					return w.paramIndex(core.Forward(b))
+				}
+			}
+		}
+		return -1
+	}
 	u, ok := v.(*ssa.UnOp)
 	if !ok || u.Op != token.MUL {
 		return -1
